@@ -28,6 +28,28 @@ func main() {
 	if len(os.Args) < 2 {
 		usage()
 	}
+	{
+		// memory budget of one exploring process (GB): the Go runtime collects harder near it, the explorer stops expanding above it
+		gb := int64(20)
+		if b, err := os.ReadFile("/proc/meminfo"); err == nil {
+			var kb int64
+			if _, err := fmt.Sscanf(string(b), "MemTotal: %d kB", &kb); err == nil && kb > 0 {
+				if third := kb / (3 << 20); third < gb {
+					gb = third // never more than a third of the machine
+				}
+				if gb < 2 {
+					gb = 2
+				}
+			}
+		}
+		if v := os.Getenv("VERIF_MEM_GB"); v != "" {
+			fmt.Sscan(v, &gb)
+		}
+		if gb > 0 {
+			debug.SetMemoryLimit(gb << 30)
+			wx.MemLimit = (gb << 30) * 9 / 10
+		}
+	}
 	if os.Getenv("GOGC") == "" {
 		// replaying histories on fresh worlds allocates heavily; memory is plentiful
 		debug.SetGCPercent(400)
@@ -188,7 +210,12 @@ func supervise(prop, tier string) int {
 		fmt.Fprintln(os.Stderr, "the check ran out of memory; nothing is concluded")
 		return 2
 	}
-	// the child was started for a valid property and tier: it ends with status 0 or 1 unless it dies
+	if code == -1 {
+		// killed by a signal (the kernel's out-of-memory killer, a time limit imposed from outside): not the library's doing
+		fmt.Fprintln(os.Stderr, "the exploring process was killed by a signal (out of memory? time limit?); nothing is concluded")
+		return 2
+	}
+	// the child was started for a valid property and tier: it ends with status 0 or 1 unless the Go runtime aborts it
 	fmt.Fprintf(os.Stderr, "the exploring process ended abnormally (exit status %d)\n", code)
 	lines := strings.Split(out, "\n")
 	if i := strings.Index(out, "fatal error:"); i >= 0 {
